@@ -1,6 +1,7 @@
 (* Property C08 — reordering transformations only relabel; no point, cell or value is lost. *)
 From Coq Require Import QArith Arith Bool List Permutation Sorted.
 From FC Require Import Model.Scalar Model.Mesh Proofs.MeshP.
+From FC Require Model.Merge Proofs.MergeP.
 Import ListNotations.
 Local Open Scope nat_scope.
 
@@ -64,6 +65,29 @@ Theorem C08_extend_only_appends_zeros : forall d M,
     exists z, nth i (pts (extend_points d M)) [] = nth i (pts M) [] ++ z /\ Forall (fun q => q = 0%Q) z.
 Proof. exact extend_only_appends_zeros. Qed.
 Print Assumptions C08_extend_only_appends_zeros.
+
+(* merge: every point field of the merged data set has one row per merged point, including the fields that only one of
+   the two pieces carries (zero rows on the other piece's points) *)
+Theorem C08_merge_point_rows_length : forall (V : Type) (zero : V) (A B : Merge.mf V),
+  (forall name r, In (name, r) (Merge.pdata A) -> length r = length (Merge.pts A)) ->
+  (forall name r, In (name, r) (Merge.pdata B) -> length r = length (Merge.pts B)) ->
+  forall name r, In (name, r) (Merge.pdata (Merge.merge2_fixed zero A B)) ->
+  length r = length (Merge.pts (Merge.merge2_fixed zero A B)).
+Proof. exact MergeP.merged_point_rows_length. Qed.
+Print Assumptions C08_merge_point_rows_length.
+
+(* finding F-C08b: with the pinned count of zero rows (all points of the second piece) a field that only the first piece
+   carries gets more rows than the merged data set has points as soon as a point is shared; the repaired count fits *)
+Theorem C08_merge_zero_rows_pinned_refuted :
+  Merge.wf 2 MergeP.wit_tri /\ Merge.wf 2 MergeP.wit_quad /\
+  length (Merge.pts MergeP.wit_tri) + Merge.zero_rows_pinned MergeP.wit_tri MergeP.wit_quad
+    <> length (Merge.pts (Merge.merge2_fixed 0 MergeP.wit_tri MergeP.wit_quad)) /\
+  length (Merge.pts MergeP.wit_tri) + Merge.zero_rows_fixed MergeP.wit_tri MergeP.wit_quad
+    = length (Merge.pts (Merge.merge2_fixed 0 MergeP.wit_tri MergeP.wit_quad)).
+Proof.
+  split; [exact MergeP.wit_tri_wf|]. split; [exact MergeP.wit_quad_wf|]. split; [vm_compute; discriminate|vm_compute; reflexivity].
+Qed.
+Print Assumptions C08_merge_zero_rows_pinned_refuted.
 
 Example C08_nonvacuous :
   let M := {| pts := [[0#1]; [1#1]; [2#1]; [3#1]; [9#1]]; cells := [(3, [[0;1]; [1;2]]); (1, [[3]])] |} in
